@@ -299,3 +299,33 @@ theorem inspect_terminates (g : G Label Hex) (v : Nat) (hv : v < cap g)
   | some x => rfl
 
 end Rs
+
+namespace Rs
+open Sodg
+
+/-- absent slots at the end of the vertex store contribute nothing to the document -/
+theorem docFrom_append_absent {L D : Type} (lt : L → L → Bool) (i : Nat) (slots extra : List (Rd.Slot L D))
+    (h : ∀ s ∈ extra, s.present = false) : Rd.docFrom lt i (slots ++ extra) = Rd.docFrom lt i slots := by
+  induction slots generalizing i with
+  | nil =>
+    simp only [List.nil_append]
+    induction extra generalizing i with
+    | nil => rfl
+    | cons e es ih =>
+      simp only [Rd.docFrom, h e (by simp), Bool.false_eq_true, if_false, List.nil_append]
+      exact ih (fun s hs => h s (List.mem_cons_of_mem _ hs)) (i + 1)
+  | cons s ss ih => simp only [List.cons_append, Rd.docFrom, ih (i + 1)]
+
+/-- **same content, same text — whatever the capacities**: if the slots of `g1` are, up to their content, a prefix
+    of the slots of `g2` and the remaining slots of `g2` are absent (a graph with a larger capacity holding the
+    same present vertices, edge sets and data), both exports give the same texts -/
+theorem same_content_same_text_caps (g1 g2 : G Label Hex) (pre extra : List (Rd.Slot Label (List UInt8)))
+    (h2 : slotsOf g2 = pre ++ extra) (hc : Rd.SameContent (slotsOf g1) pre) (he : ∀ s ∈ extra, s.present = false) :
+    toXml g1 = toXml g2 ∧ toDot g1 = toDot g2 := by
+  have e1 := Rd.doc_same_content LO.lt labelOrder_strict _ _ hc
+  have e2 : exportDoc g2 = Rd.doc LO.lt pre := by
+    unfold exportDoc Rd.doc; rw [h2]; exact docFrom_append_absent LO.lt 0 pre extra he
+  unfold toXml toDot
+  rw [e2]; unfold exportDoc; rw [e1]; exact ⟨rfl, rfl⟩
+
+end Rs
